@@ -412,6 +412,9 @@ def r3_text(ck, F, tag, enc):
                             sel.append(c)
                     elif c[0][0] == "discr" and cb is top:
                         continue            # Result/Option plumbing around the two tables
+                    elif c[1] != 0 and c[0][0] == "bin" and c[0][1] == "Eq" and "len(arg1)" in show(c[0]) and any(
+                            isinstance(a, tuple) and a[0] == "const" and a[2] == 1 for a in c[0][2:4]):
+                        continue            # the one-character gate in front of the digit table, written inline
                     elif c[1] != 0:
                         sel.append(c)
                 if len(sel) != 1:
